@@ -788,7 +788,7 @@ fn case_strategy() -> impl Strategy<Value = Case> {
   );
   let misc = (
     prop_oneof![2 => Just(Some("JWT".to_string())), 1 => Just(None)],
-    custom_claims_strategy(),
+    custom_claims_strategy_with(PRESENTATION_FREE_CLAIM_NAMES),
     // options without one or both date bounds, with dates decades away from the present
     prop_oneof![17 => Just((0u8, false, false)), 3 => (1u8..4, any::<bool>(), any::<bool>())],
   );
